@@ -460,6 +460,45 @@ class Inliner:
             self.new_functions = getattr(self, 'new_functions', 0) + 1
         return True
 
+    def local_closure_replacement(self, e, f):
+        """`const auto make = [this](u32 n) { return <expr>; }; ... make(3)`: a local closure that only computes a value is a
+           local helper; its call is replaced by the value with the argument substituted (captures are the enclosing
+           function's own `this` / by-value constants, which mean the same at the call site)"""
+        callee = _strip(e['args'][0])
+        if not (isinstance(callee, dict) and callee.get('k') == 'ref' and callee.get('dk') == 'local'):
+            return None
+        decl = None
+        for n in walk(f.get('body')):
+            if n.get('k') == 'var' and (n.get('name'), n.get('dl')) == (callee.get('name'), callee.get('dl')) and 'init' in n:
+                decl = n
+        init = _strip(decl.get('init')) if decl else None
+        while isinstance(init, dict) and init.get('k') == 'construct' and init.get('copymove') and init.get('args'):
+            init = _strip(init['args'][0])
+        if not (isinstance(init, dict) and init.get('k') == 'lambda'):
+            return None
+        lam = self.F.get(init.get('fn'))
+        if lam is None or any(c.get('byref') and c.get('name') for c in init.get('caps', [])):
+            return None
+        h = Helper(lam)
+        if h.value is None or h.value[0]:
+            return None
+        args = e['args'][1:]
+        if len(args) != h.nparams or any(h.uses[i] > 1 and not is_pure(a) for i, a in enumerate(args)) or any(h.written):
+            return None
+        own = {p.get('name') for p in lam.get('params', [])}
+        # parameters of the closure are refs of kind parm whose name is one of its own parameters
+        def rw2(x):
+            if isinstance(x, list):
+                return [rw2(y) for y in x]
+            if not isinstance(x, dict):
+                return x
+            if x.get('k') == 'ref' and x.get('dk') == 'parm' and x.get('name') in own and isinstance(x.get('idx'), int) and x['idx'] < len(args):
+                return copy.deepcopy(args[x['idx']])
+            return {kk: (rw2(vv) if isinstance(vv, (dict, list)) and kk not in ('owner', 'fta', 'ta', 'elem_of') else vv) for kk, vv in x.items()}
+        self.inlined_local_closures = getattr(self, 'inlined_local_closures', set())
+        self.inlined_local_closures.add((f.get('id'), callee.get('name'), callee.get('dl'), init.get('fn')))
+        return rw2(copy.deepcopy(h.value[1]))
+
     def stmt_replacement(self, call):
         h = self.H.get(call.get('fn'))
         if h is None or h.void is None:
@@ -568,6 +607,11 @@ class Inliner:
                     continue
                 if isinstance(v, (dict, list)):
                     e[kk] = rw(v)
+            if k == 'opcall' and e.get('op') == '()' and e.get('args'):
+                rep = self.local_closure_replacement(e, f)
+                if rep is not None:
+                    self.changed = True
+                    return rep
             if k == 'call' and e.get('fn') in self.H and e.get('fn') != f.get('id'):
                 rep = self.expr_replacement(e, whole=e is whole_node)
                 if rep is not None:
@@ -645,7 +689,11 @@ def _input_writes(init, body):
             names.add((n.get('name'), n.get('dl')))
         elif k == 'mem':
             fields.add((n.get('cls'), n.get('name')))
-            reads_memory = True
+            b_ = _strip(n.get('base'))
+            if not (isinstance(b_, dict) and b_.get('k') == 'this'):
+                reads_memory = reads_memory or not (isinstance(b_, dict) and b_.get('k') == 'opcall' and str(b_.get('cls', '')).startswith('std::unique_ptr<'))
+        elif k == 'opcall' and n.get('op') in ('[]', '*', '->') and str(n.get('cls', '')).startswith(('std::unique_ptr<', 'std::array<')):
+            pass        # owning pointer / fixed array of the object itself: identity decided by the member, not by other memory
         elif k in ('index',) or (k == 'opcall' and n.get('op') in ('[]', '*', '->')) or (k == 'un' and n.get('op') == '*') or k == 'call':
             reads_memory = True
     out = []
@@ -1147,16 +1195,36 @@ def normalize(facts):
                     return True
             return False
         cands = {fid: f for fid, f in cands.items() if not reaches(fid, fid, {fid})}
-        for _ in range(MAX_ROUNDS):
+        closures = set()
+        for rnd in range(MAX_ROUNDS):
             helpers = {fid: Helper(f) for fid, f in cands.items()}
             helpers = {fid: h for fid, h in helpers.items() if h.value is not None or h.void is not None}
-            if not helpers:
+            if not helpers and rnd > 0:
                 break
-            inl = Inliner(F, helpers)
+            inl = Inliner(F, helpers)      # (also inlines calls of local value closures, helpers or not)
             for fid, f in list(F.items()):
-                inl.run(f)
+                if f.get('file', '').startswith(('src/', 'include/')):
+                    inl.run(f)
+            closures |= getattr(inl, 'inlined_local_closures', set())
             if not inl.changed:
                 break
+        # local closures all of whose calls were inlined: drop the variable and the closure's function fact
+        for (fid_, nm_, dl_, lam_id) in sorted(closures, key=str):
+            g = F.get(fid_)
+            if g is None:
+                continue
+            if any(x.get('k') == 'ref' and (x.get('name'), x.get('dl')) == (nm_, dl_) for x in walk(g.get('body'))):
+                continue
+            for blk in [x for x in walk(g.get('body')) if x.get('k') == 'block']:
+                nb = []
+                for st in blk.get('body', []):
+                    if st.get('k') == 'decl':
+                        st['vars'] = [v for v in st.get('vars', []) if (v.get('name'), v.get('dl')) != (nm_, dl_)]
+                        if not st['vars']:
+                            continue
+                    nb.append(st)
+                blk['body'] = nb
+            F.pop(lam_id, None)
         # drop helpers nobody refers to any more
         if cands:
             used = set()
